@@ -197,3 +197,46 @@ package protocol
 //@   props C05, C03
 //@   crlf-discipline
 //@   modifies *
+
+// ---- C09: every reset establishes the generated fresh-equivalent predicate from ANY pre-state ----
+// isFresh(x) is generated on every run from the struct's current field list: false/0/""/nil for
+// scalars, strings, pointers, interfaces; len == 0 for slices; recursively for struct-typed fields.
+
+//@ fresh-override RequestHeader.trailer owned :: lazily allocated Trailer object, reset in place
+//@ fresh-override ResponseHeader.trailer owned :: lazily allocated Trailer object, reset in place
+//@ fresh-override RequestHeader.bufKV ignore :: scratch key/value buffer, always written before it is read
+//@ fresh-override ResponseHeader.bufKV ignore :: scratch key/value buffer, always written before it is read
+//@ fresh-override Trailer.bufKV ignore :: scratch key/value buffer, always written before it is read
+
+//@ func Trailer.ResetSkipNormalize(t)
+//@   props C09
+//@   modifies t.h
+//@   ensures len(t.h) == 0
+
+//@ func Trailer.Reset(t)
+//@   props C09
+//@   modifies t.h, t.disableNormalizing
+//@   top-ensures isFresh(t)
+
+//@ func RequestHeader.Trailer(h) r
+//@   props C09
+//@   modifies h.trailer
+//@   allocates
+//@   ensures r != nil && r == h.trailer && (old(h.trailer) != nil ==> r == old(h.trailer)) && (old(h.trailer) == nil ==> fresh(r) && isFresh(r))
+
+//@ func ResponseHeader.Trailer(h) r
+//@   props C09
+//@   modifies h.trailer
+//@   allocates
+//@   ensures r != nil && r == h.trailer && (old(h.trailer) != nil ==> r == old(h.trailer)) && (old(h.trailer) == nil ==> fresh(r) && isFresh(r))
+
+//@ func RequestHeader.Reset(h)
+//@   props C09
+//@   modifies *
+//@   top-ensures isFresh(h)
+
+//@ func ResponseHeader.Reset(h)
+//@   props C09
+//@   replay-go var h ResponseHeader; h.SetHeaderLength(42); h.Reset(); if h.GetHeaderLength() != 0 { fmt.Println("VCGO-VIOLATED GetHeaderLength after Reset =", h.GetHeaderLength()) }
+//@   modifies *
+//@   top-ensures isFresh(h)
